@@ -187,7 +187,7 @@ def int_value(I, v):
     ps = _parts(v)
     if ps is None:
         return NOTFOUND
-    if len(ps) == 1 and isinstance(ps[0], Digits):
+    if len(ps) == 1 and isinstance(ps[0], Digits) and ps[0].alphabet == '0123456789':
         return Sym(INT, ps[0].n)
     if any(isinstance(p, str) and not all(c in '0123456789' for c in p) for p in ps):
         return 'ValueError' if not any(isinstance(p, OpaqueStr) for p in ps) and not any(isinstance(p, str) and (p.strip() != p or p[:1] in '+-' or '_' in p) for p in ps) else NOTFOUND
@@ -418,3 +418,45 @@ def lstrip_char(I, v, ch):
                 continue
         break
     return str_from_parts(u[k:])
+
+
+def rstrip_char(I, v, ch):
+    from .lib import str_from_parts
+    ps = _parts(v)
+    if ps is None or not isinstance(ch, str) or len(ch) != 1:
+        return NOTFOUND
+    u = _unit_pieces(ps)
+    if u is None:
+        return NOTFOUND
+    k = len(u)
+    while k > 0:
+        p = u[k - 1]
+        if isinstance(p, str):
+            if p == ch:
+                k -= 1
+                continue
+            break
+        if ch in p.alphabet:
+            if I.branch(p.n == p.alphabet.index(ch)):
+                k -= 1
+                continue
+        break
+    return str_from_parts(u[:k])
+
+
+def replace_absent(v, a):
+    """True when the one-character string a cannot occur in v (so v.replace(a, b) == v)"""
+    ps = _parts(v)
+    if ps is None or len(a) != 1:
+        return False
+    for p in ps:
+        if isinstance(p, str):
+            if a in p:
+                return False
+        elif isinstance(p, Digits):
+            if a in p.alphabet:
+                return False
+        else:
+            if not (p.alpha and not a.isalpha()):
+                return False
+    return True
